@@ -439,7 +439,23 @@ func (idx *indexer) restartIndex() error {
 
 	idx.index = index
 
-	return err
+	// the compacted index holds the state of the snapshot that was dumped: transactions indexed
+	// since then are indexed again, reads waiting for them must wait until that happened
+	if idx.wHub != nil {
+		doneUpto, _, err := idx.wHub.Status()
+		if err != nil {
+			return err
+		}
+
+		if index.Ts() < doneUpto {
+			err = idx.wHub.RecedeTo(index.Ts())
+			if err != nil {
+				return err
+			}
+		}
+	}
+
+	return nil
 }
 
 func (idx *indexer) Resume() {
